@@ -1,7 +1,7 @@
 SPECIFICATION Spec
 CONSTANTS
   Part = "glob"
-  Box = "thorough"
+  Box = "t4"
   GlobCases <- MCGlobCases
   SyncCases = {}
   ReconCases = {}
